@@ -296,7 +296,7 @@ func (w *World) checkDecoded(tc *TapCommit, mt *MTxn, changes []Change) *Violati
 			continue
 		}
 		switch {
-		case o.Kind == mInsert && !mt.Failed[o.Off]:
+		case o.Kind == mInsert && !o.Dead:
 			wantIns = append(wantIns, o.Off)
 		case o.Kind == mDelete && !seenDel[o.Off]:
 			seenDel[o.Off] = true
